@@ -552,3 +552,33 @@ Proof.
   destruct (get (f_heap (sw_fs sw)) (v_root (sv_view (sw_sv sw)))) as [[| |]|]; try discriminate.
   destruct (get _ (v_root (sv_view (sw_sv sw)))) as [[| |]|]; cbn [nkind] in E3; try discriminate. reflexivity.
 Qed.
+
+(* ---- walks do not see the difference --------------------------------------------------------------------------------------------------- *)
+Theorem search_loop_geq (hi hs : heap) (v : view) (slm : slmode) : geq hi hs ->
+  forall f vol p pi sl saved, get hi vol = get hs vol -> get hi p = get hs p ->
+  search_loop f hi v slm vol p pi sl saved = search_loop f hs v slm vol p pi sl saved.
+Proof.
+  intros G. induction f as [|f IH]; intros vol p pi sl saved Ev Ep; [reflexivity|].
+  rewrite !search_loop_S. destruct (pi_next (v_os v) pi) as [ok pi1]. destruct (negb ok); [reflexivity|]. cbv zeta.
+  assert (Erc : root_check hi v vol p = root_check hs v vol p) by (unfold root_check; rewrite Ep; reflexivity).
+  rewrite Erc. destruct (root_check hs v vol p); [reflexivity|].
+  rewrite (children_of_get hs hi p Ep).
+  destruct (alookup str_eqb (pi_part pi1) (children hs p)) as [c|] eqn:El; [|reflexivity].
+  assert (Ec : get hi c = get hs c).
+  { destruct (G c) as [E|(_ & F)]; [exact E|]. exfalso. apply (F p (pi_part pi1)). apply alookup_in. exact El. }
+  rewrite Ec. destruct (get hs c) as [[ch m|d k id m|t m]|] eqn:Egs; try reflexivity.
+  - destruct (pi_is_last pi1); [reflexivity|]. destruct (check_permission m OpenLookup (v_user v)); [|reflexivity].
+    apply IH; [assumption|congruence].
+  - destruct (pi_is_last pi1 && slmode_eqb slm SlLstat); [reflexivity|].
+    destruct (Nat.ltb slCountMax (S sl)); [reflexivity|]. destruct (pi_replace_part (v_os v) pi1 t) as [reset pi2].
+    destruct reset; apply IH; assumption.
+Qed.
+
+Corollary search_node_geq (si ss : fsys) (v : view) (p : str) (slm : slmode) :
+  fsys_geq si ss -> f_vols ss = [] -> get (f_heap si) (v_root v) = get (f_heap ss) (v_root v) ->
+  search_node si v p slm = search_node ss v p slm.
+Proof.
+  intros (G & _ & Hv) Hnv Er. unfold search_node. rewrite Hv, Hnv.
+  destruct (Nat.ltb 0 (pi_vnl (pi_new (v_os v) (abs (v_os v) (v_cwd v) p)))); [cbn [alookup]; reflexivity|].
+  apply search_loop_geq; assumption.
+Qed.
